@@ -137,6 +137,18 @@ def gen_scen(rng, idx):
                 closed_cids.add(carriers[i]["cid"])
         if any(k["kind"] == "garbage" for k in carriers):
             pass
+    # every ClientID that still has a carrier attached and never lost one to the peer must have been written everything
+    # WriteTo accepted for it (whichever of its carriers took what): the driver waits for the byte total, so that a
+    # loaded machine cannot make a packet look undelivered
+    exps = []
+    for c in cids:
+        if c in closed_cids or not written[c] or not open_carriers(c):
+            continue
+        allc = [i for i, k in enumerate(carriers) if k["cid"] == c and k["kind"] in ("good", "garbage")]
+        total = sum(len(prefix(len(p) // 2)) // 2 + len(p) // 2 for p in written[c])
+        exps.append("@S%s=%d" % ("+".join(map(str, allc)), total))
+    if exps:
+        ops.append("z" + "".join(exps))
     # garbage carriers: random bytes after the header, upstream only
     for i, k in enumerate(carriers):
         if k["kind"] == "garbage" and k["open"]:
@@ -498,7 +510,7 @@ def check_log(meta, d, md):
     carriers of one ClientID): the model's log of packets taken off the queues, followed by what is still queued,
     is per ClientID what WriteTo accepted, in order (C05_downstream_exactly_once_in_order); every carrier of the
     implementation must have been written an in-order subsequence of that, and together they must have been written
-    everything when a carrier stayed attached (at most one packet may die with each carrier the peer closed)."""
+    everything when a carrier stayed attached and the peer closed none of them."""
     bad, notshown = [], []
     log = [] if md.get("log", "-") == "-" else [x.split(":") for x in md["log"].split(",")]
     q = [] if md.get("q", "-") == "-" else [x.split(":") for x in md["q"].split(",")]
@@ -530,13 +542,12 @@ def check_log(meta, d, md):
     for c in meta["cids"]:
         mine = [k for k in meta["carriers"] if k["cid"] == c and k["kind"] in ("good", "garbage")]
         attached = [k for k in mine if k["open"]]
-        closed = [k for k in mine if not k["open"]]
         acc = order.get(c, [])
         missing = [p for p in acc if p not in got.get(c, [])]
-        if attached and len(missing) > len(closed):
-            bad.append(("downstream-not-delivered", "ClientID %s has a carrier attached, yet %d of the %d packets written to it reached no carrier "
-                        "(%d carrier(s) of it were closed by the peer and may each have taken one packet with them)" % (
-                            c, len(missing), len(acc), len(closed))))
+        # (a carrier closed by the peer may take packets with it: its write loop races with the close)
+        if attached and missing and c not in meta["closed_cids"]:
+            bad.append(("downstream-not-delivered", "ClientID %s has a carrier attached and lost none to the peer, yet %d of the %d packets written "
+                        "to it reached none of its carriers" % (c, len(missing), len(acc))))
     return bad, notshown
 
 
